@@ -845,6 +845,7 @@ def decode_cstr(t):
     out = []; k = 0
     while k < len(t):
         if t[k] == '\\':
+            if t[k+1] == '\\': out.append('\\'); k += 2; continue
             out.append(chr(int(t[k+1:k+3], 16))); k += 3
         else:
             out.append(t[k]); k += 1
